@@ -161,14 +161,15 @@ theorem runPre_good (ev : Eval N) (sev : SEval N) (roCtx roCall : Bool) (gas req
     (inner : List (Nat × List (Prog N))) (act : ActionX N) (s : St N) (hsh : sh.clean = true)
     (hev : EvGood ev sev inner) :
     Good s (runPre ev roCtx roCall gas req sh out inner act s) (specPre sev roCtx roCall gas req sh out inner act s.toView) := by
-  have hb : sh.outerBefore = false ∧ sh.recovers = false ∧ sh.evmAfterWrite = false ∧ sh.dropsActionError = false := by
+  have hb : sh.outerBefore = false ∧ sh.recovers = false ∧ sh.evmAfterWrite = false ∧ sh.dropsActionError = false ∧
+      sh.outerOnError = false := by
     simp only [RunShape.clean, Bool.and_eq_true, Bool.not_eq_true'] at hsh
-    exact ⟨hsh.1.1.1, hsh.1.1.2, hsh.1.2, hsh.2⟩
-  obtain ⟨h1, h3, h4, h5⟩ := hb
+    exact ⟨hsh.1.1.1.1, hsh.1.1.1.2, hsh.1.1.2, hsh.1.2, hsh.2⟩
+  obtain ⟨h1, h3, h4, h5, h6⟩ := hb
   unfold runPre specPre
   by_cases hg : gas < req
   · simp only [hg, ↓reduceIte]; exact good_fail s _
-  · simp only [hg, ↓reduceIte, h1, h3, h5, Bool.false_eq_true, runClosure, h4]
+  · simp only [hg, ↓reduceIte, h1, h3, h5, h6, Bool.false_eq_true, runClosure, h4]
     have hi := runInner_good ev sev roCtx inner s hev
     obtain ⟨hio, hiext, hiv⟩ := hi
     generalize hri : runInner ev roCtx inner s = ri at hio hiext hiv
